@@ -32,8 +32,8 @@ def _read(path):
     return open(path, encoding="utf8").read()
 
 
-def strip_comments(src):
-    """remove // and /* */ comments and string literals' contents (keeps structure)"""
+def strip_comments(src, keep_strings=False):
+    """remove // and /* */ comments and (unless keep_strings) string literals' contents (keeps structure)"""
     out = []
     i, n = 0, len(src)
     while i < n:
@@ -47,7 +47,7 @@ def strip_comments(src):
             j = i + 1
             while j < n and src[j] != '"':
                 j += 2 if src[j] == "\\" else 1
-            out.append('""')
+            out.append(src[i:j + 1] if keep_strings else '""')
             i = j + 1
         elif src[i] == "'" and i + 2 < n and (src[i + 2] == "'" or (src[i + 1] == "\\" and src.find("'", i + 2) - i <= 4)):
             j = src.find("'", i + 2 if src[i + 1] == "\\" else i + 1)
@@ -334,7 +334,53 @@ def extract(repo):
     c = cn.find("context.add_diagnostic(")
     if not a or not b or c < 0 or not (a.start() < c and b.start() < c) or cn.count("context.add_diagnostic(") != 1:
         raise Anchor("undefined_global::check_name_expr: globals / globalsRegex filter changed shape")
-    t["sha"] = hashlib.sha256((code_rs + mod_rs + ld + ug).encode()).hexdigest()[:16]
+    # ---- how a file becomes a meta file: analyze_doc_tag_meta + LuaModuleIndex::{set_meta, add_module_by_module_path}
+    docs = strip_comments(_read(os.path.join(ca, "compilation/analyzer/decl/docs.rs")), keep_strings=True)
+    am = fn_body(docs, "analyze_doc_tag_meta", "decl/docs.rs")
+    SET = r"analyzer\s*\.db\s*\.get_module_index_mut\(\)\s*\.set_meta\(file_id\);"
+    mi = re.search(r"if\s+let\s+Some\(name_token\)\s*=\s*tag\.get_name_token\(\)\s*\{", am)
+    if not mi:
+        raise Anchor("analyze_doc_tag_meta: `if let Some(name_token) = tag.get_name_token()` not found")
+    head = am[:mi.start()]
+    blk_end = balanced(am, mi.end() - 1)
+    blk = am[mi.end():blk_end - 1]
+    tail = am[blk_end:]
+    t["meta_set_first"] = bool(re.search(SET, head))
+    if re.search(SET, tail):
+        raise Anchor("analyze_doc_tag_meta: set_meta after the name block (shape not understood)")
+    mc = re.search(r"if\s+((?:text\s*==\s*\"[^\"]*\"\s*(?:\|\|\s*)?)+)\{", blk)
+    if not mc:
+        raise Anchor("analyze_doc_tag_meta: the special-name test changed shape")
+    t["meta_special"] = re.findall(r'text\s*==\s*"([^"]*)"', mc.group(1))
+    sp_end = balanced(blk, mc.end() - 1)
+    special_body = blk[mc.end():sp_end - 1]
+    me = re.match(r"\s*else\s*\{", blk[sp_end:])
+    if not me:
+        raise Anchor("analyze_doc_tag_meta: no else branch for named meta files")
+    else_start = sp_end + me.end() - 1
+    else_body = blk[else_start + 1:balanced(blk, else_start) - 1]
+    if blk[balanced(blk, else_start):].strip():
+        raise Anchor("analyze_doc_tag_meta: code after the if/else of the name block")
+    if re.search(SET, special_body) or "add_module_by_module_path" in special_body:
+        raise Anchor("analyze_doc_tag_meta: special-name branch changed shape")
+    ia = re.search(r"\.add_module_by_module_path\(file_id,\s*text\.to_string\(\),\s*workspace_id\);", else_body)
+    if not ia or not re.search(r"\.get_module\(file_id\)\?\s*\.workspace_id;", else_body[:ia.start()]):
+        raise Anchor("analyze_doc_tag_meta: named branch no longer re-registers the module")
+    if re.search(SET, else_body[:ia.start()]):
+        raise Anchor("analyze_doc_tag_meta: set_meta before add_module_by_module_path in the named branch")
+    t["meta_set_after_rename"] = bool(re.search(SET, else_body[ia.end():]))
+    mrs = strip_comments(_read(os.path.join(ca, "db_index/module/mod.rs")))
+    ab = fn_body(mrs, "add_module_by_module_path", "module/mod.rs")
+    mk = re.search(r"ModuleInfo\s*\{[^}]*\bis_meta\s*:\s*(true|false)\b[^}]*\}", ab)
+    if not mk or "self.file_module_map.insert(file_id, module_info)" not in ab or mrs.count("is_meta:") != 1:
+        raise Anchor("add_module_by_module_path: construction of ModuleInfo changed shape")
+    t["reinsert_is_meta"] = mk.group(1) == "true"
+    sm = fn_body(mrs, "set_meta", "module/mod.rs")
+    im = fn_body(mrs, "is_meta_file", "module/mod.rs")
+    if not re.fullmatch(r"\s*if\s+let\s+Some\(module_info\)\s*=\s*self\.file_module_map\.get_mut\(&file_id\)\s*\{\s*module_info\.is_meta\s*=\s*true;\s*\}\s*", sm) \
+            or not re.fullmatch(r"\s*if\s+let\s+Some\(module_info\)\s*=\s*self\.file_module_map\.get\(file_id\)\s*\{\s*return\s+module_info\.is_meta;\s*\}\s*false\s*", im):
+        raise Anchor("LuaModuleIndex::set_meta / is_meta_file changed shape")
+    t["sha"] = hashlib.sha256((code_rs + mod_rs + ld + ug + am + ab).encode()).hexdigest()[:16]
     return t
 
 
@@ -397,6 +443,14 @@ def to_coq(t):
     w("")
     w("(** does [DiagnosticContext::get_diagnostics] drop exact duplicates (keeping first occurrences)? *)")
     w("Definition dedup_diagnostics : bool := %s." % ("true" if t["dedup"] else "false"))
+    w("")
+    w("(** [analyze_doc_tag_meta]: is [set_meta] called before the name test; the names that keep the module path;")
+    w("    is [set_meta] called again after [add_module_by_module_path] re-registers a named meta file; and the")
+    w("    [is_meta] of the [ModuleInfo] that [add_module_by_module_path] inserts *)")
+    w("Definition meta_set_first : bool := %s." % ("true" if t["meta_set_first"] else "false"))
+    w("Definition meta_special_names : list string := [%s]." % "; ".join('"%s"' % x for x in t["meta_special"]))
+    w("Definition meta_set_after_rename : bool := %s." % ("true" if t["meta_set_after_rename"] else "false"))
+    w("Definition reinsert_is_meta : bool := %s." % ("true" if t["reinsert_is_meta"] else "false"))
     w("")
     w("(** [WorkspaceId::MAIN] *)")
     w("Definition main_workspace_id : N := %d%%N." % t["main_id"])
